@@ -148,6 +148,7 @@ func runC09(args []string) error {
 	// >= 65536 SIMD blocks of 32 bytes in one call (a 16-bit loop counter would wrap): 2 MiB and beyond
 	huge := []int{2097152, 2097152 + 70, 4194304 + 34}
 	consts := []int{0, 1, 2, 3, 0x8000, 0xFFFF}
+	caseNo := 0
 	oneCase := func(path int, op string, cst, n, inOff, outOff int, layout string) error {
 		gin, err := allocGuarded(n, layout, inOff)
 		if err != nil {
@@ -161,6 +162,37 @@ func runC09(args []string) error {
 		defer gout.free()
 		rng.Read(gin.data)
 		rng.Read(gout.data)
+		// structured inputs (every third case): zero words, zero 8-byte fields inside 16-byte records, zero half-blocks,
+		// runs of 0x0001 / 0xFFFF - a kernel must not treat "looks empty" as "is empty"
+		caseNo++
+		switch caseNo % 9 {
+		case 0: // sparse: most words zero
+			for i := 0; i+1 < n; i += 2 {
+				if rng.Intn(4) != 0 {
+					gin.data[i], gin.data[i+1] = 0, 0
+				}
+			}
+		case 3: // 16-byte records whose first 8 bytes are zero
+			for i := 0; i < n; i++ {
+				if i%16 < 8 {
+					gin.data[i] = 0
+				}
+			}
+		case 6: // 16-byte records whose last 8 bytes are zero; words 0x0001 and 0xFFFF sprinkled in
+			for i := 0; i < n; i++ {
+				if i%16 >= 8 {
+					gin.data[i] = 0
+				}
+			}
+			for k := 0; k < 4 && n >= 2; k++ {
+				i := 2 * rng.Intn(n/2)
+				if k%2 == 0 {
+					gin.data[i], gin.data[i+1] = 1, 0
+				} else {
+					gin.data[i], gin.data[i+1] = 0xFF, 0xFF
+				}
+			}
+		}
 		inCopy := append([]byte{}, gin.data...)
 		old := words(gout.data)
 		fault, msg := callKernel(path, op, gf2p16.T(cst), gin.data, gout.data)
